@@ -28,7 +28,7 @@ let parse_op tok =
 
 let rec dump_raw b t =
   match t with
-  | Unk -> Buffer.add_char b 'U'
+  | Unk _ -> Buffer.add_char b 'U'
   | Text s -> Buffer.add_char b 'T'; Buffer.add_string b (hex_of_zs s)
   | Tag (name, a, children) ->
       Buffer.add_char b 'E'; Buffer.add_string b (hex_of_zs name);
